@@ -217,6 +217,11 @@ def replay(beh):
                         m.to_delete_label = sub["lab"]
                     else:
                         m.to_add_atoms = tmpl.copy()
+                        if sub.get("size", 0) == 2 * len(tmpl):
+                            # a pre-selected particle of another size than the template (two template copies)
+                            second = tmpl.copy()
+                            second.positions += [0.9, 0.0, 0.0]
+                            m.to_add_atoms = tmpl.copy() + second
             elif sub["k"] == "disp" and ent["ctype"] == "cdisp":
                 pass
         if ent["ctype"] == "cdisp":
